@@ -137,6 +137,41 @@ Proof.
   rewrite Z.eqb_refl in H. destruct H as [H _]. lia.
 Qed.
 
+(* every run is preceded by the add that returned its id: reading the log left to right with the
+   last issued sequence number [seen], a run carries a sequence number that has been issued *)
+Fixpoint runs_added (seen : Z) (ev : list event) : Prop :=
+  match ev with
+  | [] => True
+  | EAdd s _ _ _ :: r => runs_added s r
+  | ERun s _ _ _ :: r => 0 < s <= seen /\ runs_added seen r
+  | _ :: r => runs_added seen r
+  end.
+Lemma runs_added_norun : forall ev n, rlog ev = [] -> runs_added n ev.
+Proof.
+  induction ev as [|e ev IH]; intros n H; cbn [runs_added]; auto. destruct e; cbn [rlog] in H; try discriminate; auto.
+Qed.
+Lemma runs_added_app : forall l1 l2 n m, adds_from n l1 m -> runs_added n l1 -> runs_added m l2 -> runs_added n (l1 ++ l2).
+Proof.
+  induction l1 as [|e l1 IH]; intros l2 n m A R1 R2; cbn [app adds_from runs_added] in *.
+  - subst; auto.
+  - destruct e; eauto.
+    + destruct R1 as [R0 R1]. split; eauto.
+    + destruct A as [-> A]. eauto.
+Qed.
+Lemma runs_added_split : forall l1 n m s dl now t l2, adds_from n (l1 ++ ERun s dl now t :: l2) m ->
+  runs_added n (l1 ++ ERun s dl now t :: l2) -> 0 < s /\ (s <= n \/ exists a w iv, In (EAdd s a w iv) l1).
+Proof.
+  induction l1 as [|e l1 IH]; intros n m s dl now t l2 A R; cbn [app adds_from runs_added] in *.
+  - destruct R as [R _]. split; [lia|left; lia].
+  - destruct e as [s' dl' now' t'|x y|s' a' w' iv'|].
+    + destruct R as [_ R]. destruct (IH _ _ _ _ _ _ _ A R) as [P [L|(a & w & iv & HI)]]; split; auto. right. exists a, w, iv. right; auto.
+    + destruct (IH _ _ _ _ _ _ _ A R) as [P [L|(a & w & iv & HI)]]; split; auto. right. exists a, w, iv. right; auto.
+    + destruct A as [-> A]. destruct (IH _ _ _ _ _ _ _ A R) as [P [L|(a & w & iv & HI)]]; split; auto.
+      * destruct (Z.eq_dec s (n + 1)) as [->|N]; [right; exists a', w', iv'; left; auto | left; lia].
+      * right. exists a, w, iv. right; auto.
+    + destruct (IH _ _ _ _ _ _ _ A R) as [P [L|(a & w & iv & HI)]]; split; auto. right. exists a, w, iv. right; auto.
+Qed.
+
 (* ------------------------------------------------------------------ the history invariant *)
 (* a live Timer object between batches: it was added under its own (sequence, address, interval),
    a one-shot has not run and keeps its deadline, a repeater that ran k times is filed under a
@@ -154,6 +189,7 @@ Record LogInv (log : list event) (n : Z) : Prop := {
   l_adds : adds_from 0 log n;
   l_fresh : forall s, n < s -> nruns s log = 0;
   l_runadd : forall s dl now t, In (ERun s dl now t) log -> exists a w iv, In (EAdd s a w iv) log;
+  l_before : runs_added 0 log;
   l_rep : forall s a w iv, In (EAdd s a w iv) log -> 0 < iv -> spaced s w iv 0 log;
   l_one : forall s a w iv, In (EAdd s a w iv) log -> iv <= 0 ->
             nruns s log <= 1 /\ forall dl now t, In (ERun s dl now t) log -> dl = w }.
@@ -184,6 +220,7 @@ Proof.
   - intros s Hs. rewrite nruns_app, l_fresh0 by lia. rewrite (rlog_nil_nruns _ NR). reflexivity.
   - intros s dl now t HI. apply in_app_iff in HI as [HI|HI]; [|exfalso; eapply rlog_nil_norun; eauto].
     destruct (l_runadd0 _ _ _ _ HI) as (a & w & iv & H). exists a, w, iv. apply in_or_app; auto.
+  - eapply runs_added_app; [exact l_adds0 | exact l_before0 | apply runs_added_norun; auto].
   - intros s a w iv HI P. apply spaced_app. apply in_app_iff in HI as [HI|HI].
     + split; [eauto|]. apply spaced_noruns. apply rlog_nil_nruns; auto.
     + pose proof (adds_from_in _ _ _ _ _ _ _ A HI). split; apply spaced_noruns; [apply l_fresh0; lia | apply rlog_nil_nruns; auto].
@@ -208,7 +245,7 @@ Proof.
 Qed.
 
 (* appending the run of a live object that is in the between-batches state *)
-Lemma loginv_run : forall log n a o now t, LogInv log n -> obj_ok log a o -> o_seq o <= n ->
+Lemma loginv_run : forall log n a o now t, LogInv log n -> obj_ok log a o -> 0 < o_seq o <= n ->
   LogInv (log ++ [ERun (o_seq o) (o_exp o) now t]) n.
 Proof.
   intros log n a o now t L (w & HA & Rp & On) Le. destruct L. constructor.
@@ -218,6 +255,7 @@ Proof.
   - intros s dl now' t' HI. apply in_app_iff in HI as [HI|[HI|[]]].
     + destruct (l_runadd0 _ _ _ _ HI) as (a' & w' & iv' & H). exists a', w', iv'. apply in_or_app; auto.
     + inversion HI; subst. exists a, w, (o_iv o). apply in_or_app; auto.
+  - eapply runs_added_app; [exact l_adds0 | exact l_before0 |]. cbn. split; auto.
   - intros s a' w' iv' HI P. apply in_app_iff in HI as [HI|[HI|[]]]; [|discriminate].
     apply spaced_app. split; [eauto|]. destruct (Z.eq_dec (o_seq o) s) as [E|N].
     + subst s. destruct (adds_from_uniq _ _ _ _ _ _ _ _ _ _ l_adds0 HA HI) as (-> & -> & E3).
@@ -328,7 +366,7 @@ Qed.
 
 Lemma cb_step_shape : forall st c st' ev, cb_step st c = Ok (st', ev) -> shape st st' ev.
 Proof.
-  intros st c st' ev H. destruct c as [d|w iv a|a s|w iv a|a s]; cbn [cb_step] in H.
+  intros st c st' ev H. destruct c as [d|w iv a|a s|w iv a|a s|w iv a|a|cs]; cbn [cb_step] in H.
   - destruct (d <? 0); inversion H; subst. apply shape_heap_eq; auto.
   - destruct (alloc st w iv a) as [[st1 s]| |] eqn:EA; cbn [bind] in H; try discriminate.
     destruct (add_in_loop st1 a) as [[st2 e]| |] eqn:EL; cbn [bind] in H; try discriminate.
@@ -349,6 +387,14 @@ Proof.
     destruct (Z.eq_dec a b) as [->|N].
     + rewrite hget_cons_same in G. inversion G; subst o'. right. cbn [o_seq o_exp o_iv]. split; [lia|left; auto].
     + rewrite hget_cons_other in G by auto. auto.
+  - inversion H; subst. apply shape_heap_eq; auto.
+  - destruct (alloc st w iv a) as [[st1 s]| |] eqn:EA; cbn [bind] in H; try discriminate. inversion H; subst.
+    destruct (alloc_shape _ _ _ _ _ _ EA) as (Es & En & Eh & G0 & _).
+    split; [cbn; split; [lia|auto]|]. split; auto. intros b o' G. cbn in G. rewrite Eh in G.
+    destruct (Z.eq_dec a b) as [->|N].
+    + rewrite hget_cons_same in G. inversion G; subst o'. right. cbn [o_seq o_exp o_iv]. split; [lia|left; auto].
+    + rewrite hget_cons_other in G by auto. auto.
+  - destruct (zmem a (inflight st)); inversion H; subst. apply shape_heap_eq; auto.
   - inversion H; subst. apply shape_heap_eq; auto.
 Qed.
 
@@ -421,7 +467,7 @@ Lemma cb_step_obj : forall st c st' ev b o, Inv st -> hget b (heap st) = Some o 
   (hget b (heap st') = Some o /\ (forall d, In (d, b) (timers st) -> In (d, b) (timers st'))) \/
   (In (b, o_seq o) (active st) /\ gone st' (o_seq o)).
 Proof.
-  intros st c st' ev b o I G H. destruct c as [d|w iv a|a s|w iv a|a s]; cbn [cb_step] in H.
+  intros st c st' ev b o I G H. destruct c as [d|w iv a|a s|w iv a|a s|w iv a|a|cs]; cbn [cb_step] in H.
   - destruct (d <? 0); inversion H; subst. left. cbn. auto.
   - destruct (alloc st w iv a) as [[st1 s]| |] eqn:EA; cbn [bind] in H; try discriminate.
     destruct (add_in_loop st1 a) as [[st2 e]| |] eqn:EL; cbn [bind] in H; try discriminate.
@@ -446,6 +492,11 @@ Proof.
     destruct (alloc_shape _ _ _ _ _ _ EA) as (Es & En & Eh & G0 & Et & _). left. cbn. rewrite Eh, Et. split; auto.
     rewrite hget_cons_other; auto. intros ->. congruence.
   - inversion H; subst. left. cbn. auto.
+  - destruct (alloc st w iv a) as [[st1 s]| |] eqn:EA; cbn [bind] in H; try discriminate. inversion H; subst.
+    destruct (alloc_shape _ _ _ _ _ _ EA) as (Es & En & Eh & G0 & Et & _). left. cbn. rewrite Eh, Et. split; auto.
+    rewrite hget_cons_other; auto. intros ->. congruence.
+  - destruct (zmem a (inflight st)); inversion H; subst. left. cbn. auto.
+  - inversion H; subst. left. cbn. auto.
 Qed.
 
 Lemma det_not_active : forall st b s, Inv st -> det st b -> ~ In (b, s) (active st).
@@ -454,7 +505,7 @@ Proof.
 Qed.
 
 (* a detached (expired, or queued) Timer object is not touched by the callbacks *)
-Lemma cb_run_frame : forall cs st X st' ev b, Inv st -> DInv st (X ++ padds (pending st)) -> In b X ->
+Lemma cb_run_frame : forall cs st X st' ev b, Inv st -> DInv st (X ++ detq st) -> In b X ->
   cb_run st cs = Ok (st', ev) -> hget b (heap st') = hget b (heap st).
 Proof.
   induction cs as [|c r IH]; intros st X st' ev b I D Hb H; cbn [cb_run] in H.
@@ -473,7 +524,7 @@ Proof.
 Qed.
 
 (* a registered Timer object stays registered under its deadline, or is dead *)
-Lemma cb_run_reg : forall cs st X st' ev b o d, Inv st -> DInv st (X ++ padds (pending st)) ->
+Lemma cb_run_reg : forall cs st X st' ev b o d, Inv st -> DInv st (X ++ detq st) ->
   hget b (heap st) = Some o -> In (d, b) (timers st) -> cb_run st cs = Ok (st', ev) ->
   (hget b (heap st') = Some o /\ In (d, b) (timers st')) \/ gone st' (o_seq o).
 Proof.
@@ -497,7 +548,7 @@ Definition seqof (h : heap_t) (a : Z) : Z := match hget a h with Some o => o_seq
 
 (* handleRead's loop over the expired vector: each entry runs once, in order, filed under its deadline *)
 Lemma run_cbs_hist : forall ex st script now X (R : Z -> Prop) log st' ev,
-  Inv st -> DInv st (X ++ padds (pending st)) -> incl (map snd ex) X -> (forall b, R b -> In b X) ->
+  Inv st -> DInv st (X ++ detq st) -> incl (map snd ex) X -> (forall b, R b -> In b X) ->
   NoDup (map snd ex) -> (forall b, In b (map snd ex) -> ~ R b) ->
   (forall d a, In (d, a) ex -> exists o, hget a (heap st) = Some o /\ o_exp o = d) ->
   HI R st log -> run_cbs st ex script now = Ok (st', ev) ->
@@ -645,7 +696,7 @@ Lemma fire_hist : forall st script log, Top st -> HI noR st log ->
      rlog (snd r) = map (fun k => (seqof (heap st) (snd k), fst k, clk st)) (due st) /\ rearmed (fst r)).
 Proof.
   intros st script log (I & D & C & _) HH. unfold fire, due.
-  destruct (consume_same st) as (Eh & Et & Ea & En & Ep & Ec).
+  destruct (consume_same st) as (Eh & Et & Ea & En & Ep & Ec & Ei).
   rewrite <- Et.
   set (st0 := consume st) in *.
   assert (I0 : Inv st0) by (unfold Inv; rewrite Eh, Et, Ea, En; auto).
@@ -657,7 +708,7 @@ Proof.
     destruct (i_ta _ _ _ _ I0 d a0) as (o & G & _); [rewrite Eapp; apply in_or_app; right; left; auto|].
     apply (i_hp _ _ _ _ I0) in G. apply Z.ltb_lt. lia. }
   rewrite A1. cbn [assert bind].
-  assert (D0 : DInvC (heap st0) (ex ++ rest) (padds (pending st))).
+  assert (D0 : DInvC (heap st0) (ex ++ rest) (detq st)).
   { rewrite <- Eapp. unfold DInv in D. rewrite Eh, Et. exact D. }
   assert (Hex0 : forall d a, In (d, a) ex -> exists o, hget a (heap st0) = Some o /\ o_exp o = d).
   { intros d a Hi. destruct (i_ta _ _ _ _ I0 d a) as (o & G & E & _); [rewrite Eapp; apply in_or_app; auto|]. eauto. }
@@ -670,8 +721,8 @@ Proof.
   rewrite (sizes_agree_inv _ I2). cbn [assert bind].
   set (st3 := set_canceling (set_calling st2 true) []).
   assert (I3 : Inv st3) by exact I1.
-  assert (D3 : DInv st3 (map snd ex ++ padds (pending st3))).
-  { unfold DInv. cbn. rewrite Ep. eapply DInvC_perm; [apply Permutation_app_comm|]. exact D1. }
+  assert (D3 : DInv st3 (map snd ex ++ detq st3)).
+  { unfold DInv, detq. cbn. rewrite Ep, Ei. fold (detq st). eapply DInvC_perm; [apply Permutation_app_comm|]. exact D1. }
   pose proof (run_cbs_good ex st3 script (clk st) (map snd ex) I3 D3 (incl_refl _)) as GR.
   destruct (run_cbs st3 ex script (clk st)) as [[st4 evs]| |] eqn:ER; cbn [bind good] in *; auto.
   destruct GR as (I4 & D4 & C4). cbn [fst] in *.
@@ -684,15 +735,15 @@ Proof.
   { destruct ex as [|[d a] ex']; [congruence|]. intros _.
     assert (0 < d) by (eapply (i_pos _ _ _ _ I0); left; eauto).
     pose proof (ksplit_le _ _ Fex d a (or_introl eq_refl)). lia. }
-  pose proof (reset_loop_good ex st5 (clk st) (padds (pending st4)) I4 D4 Pn) as GL.
+  pose proof (reset_loop_good ex st5 (clk st) (detq st4) I4 D4 Pn) as GL.
   destruct (reset_loop st5 ex (clk st)) as [st6| |] eqn:EL; cbn [bind good] in *; auto.
-  destruct GL as (I6 & D6 & (F1 & F2 & F3 & F4)). cbn in F1, F2.
+  destruct GL as (I6 & D6 & (F1 & F2 & F3 & F4 & F5)). cbn in F1, F2.
   assert (Hex5 : forall d a, In (d, a) ex -> d <= clk st /\ exists o, hget a (heap st5) = Some o /\ o_exp o = d).
   { intros d a Hi. split; [eapply ksplit_le; eauto|]. cbn [heap st5 set_calling]. rewrite Fr4; [apply Hex0; auto|].
     apply in_map_iff. exists (d, a); auto. }
   assert (H5 : HI (fun b => In b (map snd ex)) st5 (log ++ evs)).
   { eapply HI_same; [| |eapply HI_ext; [|exact H4]]; cbn; auto. intros b. unfold noR. tauto. }
-  destruct (reset_loop_hist ex st5 (clk st) (padds (pending st4)) (log ++ evs) st6 I4 D4 Hex5 Pn H5 EL) as (H6 & _).
+  destruct (reset_loop_hist ex st5 (clk st) (detq st4) (log ++ evs) st6 I4 D4 Hex5 Pn H5 EL) as (H6 & _).
   assert (RL' : rlog evs = map (fun k => (seqof (heap st) (snd k), fst k, clk st)) ex).
   { rewrite RL. apply map_ext. intros k. cbn [heap st3 st2 set_canceling set_calling set_sets]. rewrite Eh. reflexivity. }
   destruct (timers st6) as [|[d a] r] eqn:ET6.
@@ -711,7 +762,7 @@ Qed.
 
 Lemma run_functors_shape : forall fs st st' ev, run_functors st fs = Ok (st', ev) -> shape st st' ev.
 Proof.
-  induction fs as [|[a|a s] r IH]; intros st st' ev H; cbn [run_functors] in H.
+  induction fs as [|[a|a s|cs] r IH]; intros st st' ev H; cbn [run_functors] in H.
   - inversion H; subst. apply shape_refl.
   - destruct (add_in_loop st a) as [[st1 e1]| |] eqn:E1; cbn [bind] in H; try discriminate.
     destruct (run_functors st1 r) as [[st2 e2]| |] eqn:E2; cbn [bind] in H; try discriminate.
@@ -721,6 +772,9 @@ Proof.
     destruct (cancel_shape _ _ _ _ E1) as (En & _ & _ & _ & Hh).
     change ev with ([] ++ ev). eapply shape_trans; [|eauto].
     split; [cbn; auto|]. split; auto. intros b o' G; auto.
+  - destruct (cb_run st cs) as [[st1 e1]| |] eqn:E1; cbn [bind] in H; try discriminate.
+    destruct (run_functors st1 r) as [[st2 e2]| |] eqn:E2; cbn [bind] in H; try discriminate.
+    inversion H; subst. eapply shape_trans; [eapply cb_run_shape; eauto | eauto].
 Qed.
 
 Lemma step_hist : forall st o log st' ev, Top st -> HI noR st log -> step st o = Ok (st', ev) ->
@@ -784,7 +838,7 @@ Lemma fire_idle : forall st script st' ev, Top st -> due st = [] -> fire st scri
   timers st' = timers st /\ heap st' = heap st /\ clk st' = clk st /\ rlog ev = [].
 Proof.
   intros st script st' ev (I & _) Dn H. unfold due in Dn. unfold fire in H.
-  destruct (consume_same st) as (Eh & Et & Ea & En & Ep & Ec). rewrite Et in H.
+  destruct (consume_same st) as (Eh & Et & Ea & En & Ep & Ec & Ei). rewrite Et in H.
   destruct (assert (sizes_agree (consume st))); cbn [bind] in H; try discriminate.
   destruct (ksplit (clk st, PTR_MAX) (timers st)) as [ex rest] eqn:KS. cbn [fst] in Dn. subst ex.
   destruct (ksplit_spec _ _ _ _ (i_st _ _ _ _ I) KS) as (Eapp & _). cbn [app] in Eapp.
@@ -804,7 +858,7 @@ Qed.
 (* ------------------------------------------------------------------ the clock inside a batch *)
 Lemma cb_step_clk : forall st c st' ev, cb_step st c = Ok (st', ev) -> clk st <= clk st'.
 Proof.
-  intros st c st' ev H. destruct c as [d|w iv a|a s|w iv a|a s]; cbn [cb_step] in H.
+  intros st c st' ev H. destruct c as [d|w iv a|a s|w iv a|a s|w iv a|a|cs]; cbn [cb_step] in H.
   - destruct (Z.ltb_spec d 0); inversion H; subst. cbn. lia.
   - destruct (alloc st w iv a) as [[st1 s]| |] eqn:EA; cbn [bind] in H; try discriminate.
     destruct (add_in_loop st1 a) as [[st2 e]| |] eqn:EL; cbn [bind] in H; try discriminate.
@@ -814,6 +868,10 @@ Proof.
     destruct (cancel_shape _ _ _ _ EC) as (_ & _ & _ & Ek & _). lia.
   - destruct (alloc st w iv a) as [[st1 s]| |] eqn:EA; cbn [bind] in H; try discriminate. inversion H; subst.
     destruct (alloc_shape _ _ _ _ _ _ EA) as (_ & _ & _ & _ & _ & _ & _ & _ & _ & Ek & _). cbn. lia.
+  - inversion H; subst. cbn. lia.
+  - destruct (alloc st w iv a) as [[st1 s]| |] eqn:EA; cbn [bind] in H; try discriminate. inversion H; subst.
+    destruct (alloc_shape _ _ _ _ _ _ EA) as (_ & _ & _ & _ & _ & _ & _ & _ & _ & Ek & _). cbn. lia.
+  - destruct (zmem a (inflight st)); inversion H; subst. cbn. lia.
   - inversion H; subst. cbn. lia.
 Qed.
 Lemma cb_run_clk : forall cs st st' ev, cb_run st cs = Ok (st', ev) -> clk st <= clk st'.
@@ -886,6 +944,14 @@ Qed.
 Lemma run_of_added : forall c ops st evs, run (init c) ops = Ok (st, evs) ->
   forall s dl now t, In (ERun s dl now t) evs -> exists a w iv, In (EAdd s a w iv) evs.
 Proof. intros c ops st evs H. destruct (reach_hist _ _ _ _ H) as (L & _). apply (l_runadd _ _ L). Qed.
+
+(* ... and the add precedes the run in the log *)
+Lemma add_precedes_run : forall c ops st evs, run (init c) ops = Ok (st, evs) ->
+  forall l1 s dl now t l2, evs = l1 ++ ERun s dl now t :: l2 -> exists a w iv, In (EAdd s a w iv) l1.
+Proof.
+  intros c ops st evs H l1 s dl now t l2 E. destruct (reach_hist _ _ _ _ H) as (L & _). rewrite E in L.
+  destruct (runs_added_split _ _ _ _ _ _ _ _ (l_adds _ _ L) (l_before _ _ L)) as [P [Le|Ex]]; [lia|exact Ex].
+Qed.
 
 (* ids are unique: one add event per sequence number *)
 Lemma add_unique : forall c ops st evs, run (init c) ops = Ok (st, evs) ->
@@ -1008,29 +1074,62 @@ Proof.
   rewrite nruns_filter in *. lia.
 Qed.
 
+(* progress over two expiries, as one statement: the timerfd is readable (armed instant x <= clock) and a
+   timer is pending; the loop processes the expiry, sleeps until the timerfd is readable again (only the
+   clock moves) and processes the next expiry.  The earliest timer has run in the first or in the second. *)
+Lemma progress_two : forall c ops st evs s1 st1 ev1 dt st2 e2 s2 st3 ev2 d a r x,
+  run (init c) ops = Ok (st, evs) -> timers st = (d, a) :: r -> armed st = Some x -> x <= clk st ->
+  fire st s1 = Ok (st1, ev1) ->
+  step st1 (Cb (CTick dt)) = Ok (st2, e2) -> (forall x1, armed st1 = Some x1 -> x1 <= clk st2) ->
+  fire st2 s2 = Ok (st3, ev2) ->
+  exists o, hget a (heap st) = Some o /\
+    ((exists t, In (ERun (o_seq o) d (clk st) t) ev1) \/ (exists t, In (ERun (o_seq o) d (clk st2) t) ev2)).
+Proof.
+  intros c ops st evs s1 st1 ev1 dt st2 e2 s2 st3 ev2 d a r x H ET EA Le HF1 HT Due HF2.
+  destruct (reach_top _ _ _ _ H) as (I & _).
+  destruct (i_ta _ _ _ _ I d a) as (o & G & _); [rewrite ET; left; auto|]. exists o. split; auto.
+  destruct (progress _ _ _ _ _ _ _ _ _ _ _ H ET EA Le HF1) as [_ [[_ (o' & t & G' & HR)]|(Lt & _ & _ & Et1 & Ek1 & Ar1)]].
+  - left. rewrite G in G'. inversion G'; subst o'. eauto.
+  - right.
+    assert (Dn : due st = []).
+    { destruct (due st) as [|[d' a'] l] eqn:Ed; auto. exfalso.
+      assert (Hi : In (d', a') (timers st) /\ d' <= clk st) by (apply due_iff; auto; rewrite Ed; left; auto). destruct Hi as [Hi Le'].
+      pose proof (i_st _ _ _ _ I) as S. rewrite ET in S, Hi. pose proof (Srt_head_le _ _ _ _ S Hi) as Q. cbn [fst] in Q. lia. }
+    destruct (fire_idle _ _ _ _ (reach_top _ _ _ _ H) Dn HF1) as (_ & Eh1 & _ & _).
+    cbn [step cb_step] in HT. destruct (Z.ltb_spec dt 0); [discriminate|]. inversion HT; subst st2 e2. clear HT.
+    assert (HT2 : run (init c) (ops ++ [Fire s1; Cb (CTick dt)]) = Ok (set_clk st1 (clk st1 + dt), evs ++ ev1 ++ [])).
+    { eapply run_app; [exact H|]. cbn [run step cb_step]. rewrite HF1. cbn [bind].
+      destruct (Z.ltb_spec dt 0); [lia|]. cbn [bind]. rewrite !app_nil_r. reflexivity. }
+    specialize (Due _ Ar1). cbn [clk set_clk] in Due.
+    destruct (none_lost _ _ _ _ _ _ _ HT2 HF2 d a) as (o' & t & G' & HR).
+    + cbn [timers set_clk]. rewrite Et1, ET. left; auto.
+    + cbn [clk set_clk]. lia.
+    + cbn [heap set_clk] in G'. rewrite Eh1, G in G'. inversion G'; subst o'. eauto.
+Qed.
+
 (* ------------------------------------------------------------------ handleRead taken apart (for C06_Order, C07_Proofs) *)
 Lemma fire_decomp : forall st script st' ev, Top st -> fire st script = Ok (st', ev) ->
   exists ex rest act st4 evs st6,
     ksplit (clk st, PTR_MAX) (timers st) = (ex, rest) /\ timers st = ex ++ rest /\
     (forall d a, In (d, a) ex -> d <= clk st) /\
     let st3 := set_canceling (set_calling (set_sets (consume st) rest act) true) [] in
-    Inv st3 /\ DInv st3 (map snd ex ++ padds (pending st3)) /\
+    Inv st3 /\ DInv st3 (map snd ex ++ detq st3) /\
     run_cbs st3 ex script (clk st) = Ok (st4, evs) /\
-    Inv st4 /\ DInv st4 (map snd ex ++ padds (pending st4)) /\ calling st4 = true /\
+    Inv st4 /\ DInv st4 (map snd ex ++ detq st4) /\ calling st4 = true /\
     reset_loop (set_calling st4 false) ex (clk st) = Ok st6 /\ Inv st6 /\
     heap st' = heap st6 /\ timers st' = timers st6 /\ active st' = active st6 /\ next_seq st' = next_seq st6 /\
     pending st' = pending st6 /\
     exists e, ev = evs ++ e /\ rlog e = [].
 Proof.
   intros st script st' ev (I & D & C & _) H. unfold fire in H.
-  destruct (consume_same st) as (Eh & Et & Ea & En & Ep & Ec).
+  destruct (consume_same st) as (Eh & Et & Ea & En & Ep & Ec & Ei).
   set (st0 := consume st) in *.
   assert (I0 : Inv st0) by (unfold Inv; rewrite Eh, Et, Ea, En; auto).
   rewrite (sizes_agree_inv _ I0) in H. cbn [assert bind] in H. rewrite Et in H.
   destruct (ksplit (clk st, PTR_MAX) (timers st)) as [ex rest] eqn:KS.
   destruct (ksplit_spec _ _ _ _ (i_st _ _ _ _ I) KS) as (Eapp & Fex & Hrest).
   destruct (assert _); cbn [bind] in H; try discriminate.
-  assert (D0 : DInvC (heap st0) (ex ++ rest) (padds (pending st))).
+  assert (D0 : DInvC (heap st0) (ex ++ rest) (detq st)).
   { rewrite <- Eapp. unfold DInv in D. rewrite Eh. exact D. }
   unfold Inv in I0. rewrite Et, Eapp in I0.
   pose proof (unactivate_good ex st0 rest (active st0) (next_seq st0) _ I0 D0) as GU.
@@ -1041,8 +1140,8 @@ Proof.
   rewrite (sizes_agree_inv _ I2) in H. cbn [assert bind] in H.
   set (st3 := set_canceling (set_calling st2 true) []) in *.
   assert (I3 : Inv st3) by exact I1.
-  assert (D3 : DInv st3 (map snd ex ++ padds (pending st3))).
-  { unfold DInv. cbn. rewrite Ep. eapply DInvC_perm; [apply Permutation_app_comm|]. exact D1. }
+  assert (D3 : DInv st3 (map snd ex ++ detq st3)).
+  { unfold DInv, detq. cbn. rewrite Ep, Ei. fold (detq st). eapply DInvC_perm; [apply Permutation_app_comm|]. exact D1. }
   pose proof (run_cbs_good ex st3 script (clk st) (map snd ex) I3 D3 (incl_refl _)) as GR.
   destruct (run_cbs st3 ex script (clk st)) as [[st4 evs]| |] eqn:ER; cbn [bind good] in *; try discriminate; try contradiction.
   destruct GR as (I4 & D4 & C4). cbn [fst] in *.
@@ -1050,7 +1149,7 @@ Proof.
   { destruct ex as [|[d1 a1] ex']; [congruence|]. intros _.
     assert (0 < d1) by (eapply (i_pos _ _ _ _ I); rewrite Eapp; left; eauto).
     pose proof (ksplit_le _ _ Fex d1 a1 (or_introl eq_refl)). lia. }
-  pose proof (reset_loop_good ex (set_calling st4 false) (clk st) (padds (pending st4)) I4 D4 Pn) as GL.
+  pose proof (reset_loop_good ex (set_calling st4 false) (clk st) (detq st4) I4 D4 Pn) as GL.
   destruct (reset_loop (set_calling st4 false) ex (clk st)) as [st6| |] eqn:EL; cbn [bind good] in *; try discriminate; try contradiction.
   destruct GL as (I6 & D6 & _).
   exists ex, rest, act, st4, evs, st6. splits; auto.
